@@ -206,6 +206,11 @@ def run(ck):
     stored_final_block(ck, P)
     from .. import condparity
     ck.floor("SIB/ref-conditions", condparity.check(ck, P, "SIB/ref-conditions", only={"trees.c:send_all_trees", "trees.c:compress_block", "trees.c:init_block", "trees.c:zng_tr_stored_block", "trees.c:gen_codes", "trees.c:pqdownheap", "match_tpl.h:LONGEST_MATCH", "deflate_stored.c:deflate_stored", "deflate.c:deflate", "trees.c:zng_tr_flush_block", "trees.c:gen_bitlen", "trees.c:build_tree", "trees.c:scan_tree", "trees.c:build_bl_tree"}), 60)
+    # the zlib trailer is the Adler-32 of the data: the kernels that compute it keep their deferred-modulo stride within NMAX
+    # and reduce both halves at the end
+    from . import c09 as _c09
+    ck.floor("ATOM/adler-stride:K1", _c09.adler_kernels(ck, P, "K1"), 2)
+    _c09.adler_final_reduction(ck, P)
     # FDICT / DICTID of the zlib header
     from . import c13 as _c13
     _c13.deflate_set_dictionary(ck, P)
